@@ -1013,9 +1013,9 @@ func modeC17g(e *Env) {
 	})
 }
 
-// modeC07g: a quarter of the sessions (quick) / all of them (thorough): every attempt's handshake (C07).
+// modeC07g: a quarter of the sessions (quick) / a third of them (thorough): every attempt's handshake (C07).
 func modeC07g(e *Env) {
-	replaySessions(e, "c07g", func(i int, hist []interface{}) bool { return e.Thorough() || i%4 == 0 })
+	replaySessions(e, "c07g", func(i int, hist []interface{}) bool { return i%e.N(4, 3) == 0 })
 }
 
 func replaySessions(e *Env, fam string, keep func(i int, hist []interface{}) bool) {
